@@ -774,10 +774,15 @@ func (t *Terminal) readLine() (line []string, err error) {
 		lineOk := false
 		for !lineOk {
 			var key rune
-			key, rest = bytesToKey(rest, t.pasteActive)
-			if key == utf8.RuneError {
+			var after []byte
+			key, after = bytesToKey(rest, t.pasteActive)
+			if key == utf8.RuneError && len(after) == len(rest) {
+				// nothing consumed: an incomplete sequence, more must be read.
+				// (A consumed U+FFFD - typed as such, or decoded from a byte
+				// that is not UTF-8 - is a key like any other.)
 				break
 			}
+			rest = after
 			if !t.pasteActive {
 				if key == keyCtrlD {
 					if len(t.line) == 0 {
